@@ -38,7 +38,7 @@ class ElabWorld(World):
     )
 
     def runs(self, prop, tier):
-        return {"quick": 1000, "thorough": 25000}[tier]
+        return {"quick": 3000, "thorough": 40000}[tier]
 
     def rule(self, prop):
         return ("cases = (component class, configuration, elaborate/simulate history); non-trivial "
